@@ -317,7 +317,7 @@ def run_check(tier, seed):
         return finish(ev, PROP, findings, broken)
     fx = {'fx_open': True, 'fx_create': True, 'fx_append': True}      # the model the theorems (C18_full) are about
     ev.cov['code_variant'] = {'model': 'all_fixes', 'decided_by': 'C18_full'}
-    nh = 24 if quick else 400
+    nh = 16 if quick else 400
     evals = 0; nontriv = set(); samples = []; exprs = []; meta = []
     base = os.path.join(SCRATCH, 'c18-tree')
 
